@@ -12,7 +12,19 @@ theorem processEntry_chains {limit i : Nat} {st st' : LoadSt} {pe : PEntry} (h :
   unfold processEntryC
   by_cases hown : ((st.chains.getD i emptyTree).get pe.e.p).isSome
   · rw [if_pos hown] at h; rw [if_pos hown]
-    simp only [Option.some.injEq] at h; subst h; simp
+    by_cases hu : (pe.act = .accept && upgrades (st.chains.getD i emptyTree) pe.e) = true
+    · rw [if_pos hu] at h
+      simp only [Bool.and_eq_true, decide_eq_true_eq] at hu
+      simp only [Option.map_eq_some_iff] at h
+      obtain ⟨d, _, rfl⟩ := h
+      rw [if_pos hu.1, if_pos hu.2]
+    · rw [if_neg hu] at h
+      simp only [Option.some.injEq] at h; subst h
+      by_cases ha : pe.act = .accept
+      · have : ¬ upgrades (st.chains.getD i emptyTree) pe.e = true := by
+          intro hh; apply hu; rw [hh]; simp [ha]
+        rw [if_pos ha, if_neg this]
+      · rw [if_neg ha]
   · rw [if_neg hown] at h; rw [if_neg hown]
     cases hact : pe.act <;> rw [hact] at h <;> simp only [] at h
     · simp only [Option.map_eq_some_iff] at h
@@ -29,7 +41,12 @@ theorem processEntry_disk {limit i : Nat} {st st' : LoadSt} {pe : PEntry} (h : p
     st'.disk = st.disk ∨ diskStep limit st.disk pe = some st'.disk := by
   unfold processEntry at h
   by_cases hown : ((st.chains.getD i emptyTree).get pe.e.p).isSome
-  · rw [if_pos hown] at h; simp only [Option.some.injEq] at h; subst h; exact Or.inl rfl
+  · rw [if_pos hown] at h
+    by_cases hu : (pe.act = .accept && upgrades (st.chains.getD i emptyTree) pe.e) = true
+    · rw [if_pos hu] at h
+      simp only [Option.map_eq_some_iff] at h
+      obtain ⟨d, hd, rfl⟩ := h; exact Or.inr hd
+    · rw [if_neg hu] at h; simp only [Option.some.injEq] at h; subst h; exact Or.inl rfl
   · rw [if_neg hown] at h
     cases hact : pe.act <;> rw [hact] at h <;> simp only [] at h
     · simp only [Option.map_eq_some_iff] at h
